@@ -364,7 +364,17 @@ func TestC11_Corruptions(t *testing.T) {
 		if rapid.IntRange(0, 9).Draw(t, "force_other_module") == 0 {
 			sigType = bases[rapid.IntRange(0, len(bases)-1).Draw(t, "othermod")].sigType
 		}
-		data, ops := mutate(t, b, src, fields)
+		var data []byte
+		var ops []string
+		if !useUpload && rapid.IntRange(0, 3).Draw(t, "inner") == 0 {
+			// damage inside a container whose framing (CRCs, compressed lengths) stays valid
+			if d, o, ok := innerMutate(t, b, src); ok {
+				data, ops = d, o
+			}
+		}
+		if data == nil {
+			data, ops = mutate(t, b, src, fields)
+		}
 		if entry == "sign" && !useUpload && b.upload != nil {
 			// corrupt the artefact first; the child lets the client transform build the body
 			entry = "transform-sign"
